@@ -7,6 +7,8 @@ import MM.Model.C21
 
     a <enabled 0|1> <users> <dial> <udp><icmp> <input>   -> as engine c23 (`r … a …`)
     w <enabled 0|1> <users> <basic>                       -> `401` | `pass`   (HTTP Basic gate of the WebSocket listener)
+    ws <enabled 0|1> <users> <basic> <dial> <udp><icmp> <input>   a real WebSocket client against the real listener:
+                                                          -> `401` | `r … a …` (every server message = one binary frame)
       users : `-` or `/`-separated `name.password.hash` — name/password hex or `-`;
               hash `-` (none) | `g<pw hex|->` (a real bcrypt hash of that password) | `j<hex>` (a junk hash string)
       basic : `-` (no Authorization header) or `name.password` (hex or `-`)
@@ -14,17 +16,8 @@ import MM.Model.C21
 namespace MM.Engine.C21
 open MM MM.C23 MM.C21
 
-/-- The 72 key bytes Blowfish's `ExpandKey` actually uses: the key (password plus a NUL) repeated
-    cyclically and cut at 72 — bcrypt's well-known truncation. -/
-def cyc72 (k : Bytes) : Bytes :=
-  if k.isEmpty then [] else (List.range 72).map (fun i => k[i % k.length]!)
-
-/-- bcrypt on the engine's hash tokens: `1 :: pw` is "a hash generated from pw" (it matches every
-    password with the same 72 effective key bytes), anything else never matches. -/
-def bc (h p : Bytes) : Bool :=
-  match h with
-  | 1 :: q => cyc72 (q ++ [0]) == cyc72 (p ++ [0])
-  | _ => false
+/-- bcrypt on the engine's hash tokens: `MM.C21.bcModel` (72 effective key bytes). -/
+def bc (h p : Bytes) : Bool := bcModel h p
 
 def parseHash (s : String) : Option Bytes :=
   if s = "-" then some []
@@ -49,6 +42,7 @@ def parseBasic (s : String) : Option (Option (Bytes × Bytes)) :=
 inductive Op where
   | tcp (cfg : Cfg) (o : C23.Op)
   | ws (cfg : Cfg) (basic : Option (Bytes × Bytes))
+  | wsFull (cfg : Cfg) (basic : Option (Bytes × Bytes)) (o : C23.Op)
 
 partial def parseOp (line : String) : Option Op :=
   match tokens line with
@@ -57,6 +51,9 @@ partial def parseOp (line : String) : Option Op :=
     let o ← C23.parseOp s!"h - {di} {be} {inp}"
     pure (.tcp ⟨en = "1", users⟩ o)
   | ["a", en, us, di, be, inp, _frag] => parseOp s!"a {en} {us} {di} {be} {inp}"
+  | ["ws", en, us, ba, di, be, inp] => do
+    let o ← C23.parseOp s!"h - {di} {be} {inp}"
+    pure (.wsFull ⟨en = "1", ← parseUsers us⟩ (← parseBasic ba) o)
   | ["w", en, us, ba] => do
     pure (.ws ⟨en = "1", ← parseUsers us⟩ (← parseBasic ba))
   | _ => none
@@ -69,6 +66,11 @@ def step (line : String) : String :=
     let b := C23.showResult (serveTCP bc cfg (o.env true) o.input)
     if a = b then a else s!"anyof {a} | {b}"
   | some (.ws cfg basic) => if wsGate bc cfg basic then "pass" else "401"
+  | some (.wsFull cfg basic o) =>
+    if !wsGate bc cfg basic then "401"
+    else
+      -- the WebSocket connection has no disconnect monitor (NoDeadlineMonitor): no race
+      C23.showResult (serveWS bc cfg (o.env false) basic o.input)
 
 /-! ### spec: C21 on the implementation's own answer -/
 
@@ -95,6 +97,23 @@ def authorised (cfg : Cfg) (c : Option (Bytes × Bytes)) : Bool :=
   | none => false
   | some (n, p) => cfg.users.any (fun u => u.name == n && userValidB u p)
 
+/-- equality-level: the presented password IS the configured one / the one the hash was made from -/
+def userStrictB (u : User) (pw : Bytes) : Bool :=
+  if u.hash ≠ [] then (match u.hash with | 1 :: q => q == pw | _ => false)
+  else (u.password ≠ [] && u.password == pw)
+
+/-- Which user decides: as the Go maps do — last entry with that name among the hashed users when
+    there are any, else among the plaintext ones. -/
+def strictlyAuthorised (cfg : Cfg) (c : Option (Bytes × Bytes)) : Bool :=
+  match c with
+  | none => false
+  | some (n, p) => cfg.users.any (fun u => u.name == n && userValidB u p && userStrictB u p)
+
+def judge (cfg : Cfg) (c : Option (Bytes × Bytes)) (tag : String) : String :=
+  if !authorised cfg c then "fail " ++ tag
+  else if !strictlyAuthorised cfg c then "fail bcrypt-equivalent-password"
+  else "ok"
+
 def spec (line : String) (implOut0 : String) : String :=
   let implOut := implOut0.trimAscii.toString
   if implOut.startsWith "panic" || implOut.startsWith "crash" then "fail crashed"
@@ -105,14 +124,24 @@ def spec (line : String) (implOut0 : String) : String :=
       match tokens implOut with
       | ["r", _, "a", act] =>
         if !cfg.enabled ∨ act = "none" then "ok"
-        else if authorised cfg (presentedCreds o.input) then "ok"
-        else "fail unauth-command"
+        else judge cfg (presentedCreds o.input) "unauth-command"
       | _ => "fail unparsable-output"
     | some (.ws cfg basic) =>
       if implOut = "401" then "ok"
       else if implOut = "pass" then
-        (if !cfg.enabled ∨ authorised cfg basic then "ok" else "fail ws-gate-open")
+        (if !cfg.enabled then "ok" else judge cfg basic "ws-gate-open")
       else "fail unparsable-output"
+    | some (.wsFull cfg basic o) =>
+      if implOut = "401" then "ok"
+      else match tokens implOut with
+        | ["r", _, "a", act] =>
+          if !cfg.enabled then "ok"
+          else
+            let g := judge cfg basic "ws-gate-open"
+            if g ≠ "ok" then g
+            else if act = "none" then "ok"
+            else judge cfg (presentedCreds o.input) "unauth-command"
+        | _ => "fail unparsable-output"
 
 def main (args : List String) : IO Unit :=
   match args with
